@@ -70,7 +70,11 @@ pub fn apply_tla<H: BuildHasher>(args: &HashMap<IStr, TlaArg, H>, val: Val) -> R
 			|| {
 				let mut names = Vec::with_capacity(args.len());
 				let mut values = Vec::with_capacity(args.len());
-				for (name, value) in args {
+				// Iterate in name order: hash order would make the reported error (unknown
+				// parameter, failing argument) depend on interned string addresses
+				let mut sorted_args = args.iter().collect::<Vec<_>>();
+				sorted_args.sort_unstable_by(|a, b| a.0.cmp(b.0));
+				for (name, value) in sorted_args {
 					names.push(name.clone());
 					values.push(value.evaluate()?);
 				}
